@@ -178,6 +178,8 @@ fn e16_user_iterator(x: A) -> (Option<i64>, Vec<i64>, bool, i64) { let mk = || C
 
 fn e17_iter_sources(x: A) -> (Vec<i64>, Vec<i64>, Vec<i64>, Vec<Vec<i64>>) { let mut n = x.0; let a: Vec<i64> = std::iter::from_fn(|| { if n < 3 && n > -9 { n += 2; Some(n * x.1) } else { None } }).collect(); let mut k = 0; let b: Vec<i64> = std::iter::repeat_with(|| { k += x.1; k }).take(3).collect(); let c: Vec<i64> = std::iter::repeat(x.0).take(2).collect(); let mut d: Vec<Vec<i64>> = std::iter::repeat_with(Vec::new).take(2).collect(); d.extend(std::iter::repeat_with(Default::default).take(1)); (a, b, c, d) }
 
+fn e18_euclid_and_bounds(x: A) -> (Option<i32>, Option<i32>, i32, i32, Option<u32>, i64, Vec<i64>) { let a = x.0 as i32; let b = x.1 as i32; let m = if x.0 == 64 { i32::MIN } else { a }; let d = if x.1 == -3 { -1 } else { b }; let w = x.3.to_vec(); let k = w[(x.0.unsigned_abs() as usize) % 6]; (m.checked_rem_euclid(d), m.checked_div_euclid(d), m.wrapping_rem_euclid(if d == 0 { 3 } else { d }), m.wrapping_div_euclid(if d == 0 { 3 } else { d }), (a as u32).checked_rem_euclid(b as u32), k, w[(x.1.unsigned_abs() as usize)..].to_vec()) }
+
 fn main() {
     let avals = [-7i64, -1, 0, 1, 2, 5, 64];
     let bvals = [-3i64, 0, 1, 2];
@@ -199,5 +201,5 @@ fn main() {
          d01_methods, d02_trait_dispatch, d03_dyn, d04_recursion, d05_iter_mut, d06_while_let, d07_sort_cmp, d08_binding_modes, d09_at_patterns, d10_str_cmp, d11_char_ops, d12_write,
          d13_option_mut, d14_shadow_blocks, d15_tuple_struct, d16_array, d17_nested_closures, d18_fold_tuple, d19_early_return_loop, d20_string_api, d21_int_parse_fmt, d22_slices_eq,
          d23_result_chain, d24_vec_of_vec, d25_if_let_chain, d26_wrapping_mix, d27_checked_chain, d28_extend_concat, d29_bool_short_circuit, d30_default_struct,
-         e01_iter_next_then_for, e02_iter_next_twice, e03_try_for_each, e04_iter_by_mut_ref, e05_into_iter_next, e06_chars_next, e07_range_next, e08_peekable, e09_user_fmt, e10_mut_ref_locals, e11_overflow_builtin, e12_neg_min, e13_hashset_algebra, e14_ctor_as_fn, e15_binary_search_by, e16_user_iterator, e17_iter_sources);
+         e01_iter_next_then_for, e02_iter_next_twice, e03_try_for_each, e04_iter_by_mut_ref, e05_into_iter_next, e06_chars_next, e07_range_next, e08_peekable, e09_user_fmt, e10_mut_ref_locals, e11_overflow_builtin, e12_neg_min, e13_hashset_algebra, e14_ctor_as_fn, e15_binary_search_by, e16_user_iterator, e17_iter_sources, e18_euclid_and_bounds);
 }
